@@ -132,10 +132,11 @@ def any_view(rng, depth, n):
     return f'(map {e} {rng.randint(-3, 3)} {rng.randint(-5, 5)})', hl
 
 
-def held_view(rng, n):
+HELD = ('array', 'list', 'tuple', 'table', 'tree', 'rtree', 'mlist', 'marray', 'mtable', 'mtree')
+def held_view(rng, n, kinds=HELD):
     """an expression of n items whose cursor is held by the caller and whose `get` leaves a walk alone: a container,
     possibly under whole-sequence slices / a filter that accepts everything it is asked about (length then unknown)"""
-    e = base(rng, n, ('array', 'list', 'tuple', 'table', 'tree', 'rtree', 'mlist', 'marray', 'mtable', 'mtree'))
+    e = base(rng, n, kinds)
     r = rng.random()
     if r < 0.25: return rng.choice([f'(slice {e})', f'(slice {e} _ _ 1)', f'(reverse {e})', f'(slice {e} 0 {n})']), n
     if r < 0.40: return f'(filter {e} {rng.randint(1, 3)} 0)', -1
@@ -149,7 +150,8 @@ def get_walk_lines(rng, count):
     for _ in range(count):
         n = rng.randint(0, 9)
         if rng.random() < 0.6:
-            e, m = held_view(rng, n)
+            # (no white-box `table`: its slot array may be full, and Table_Get of an absent key then probes for ever)
+            e, m = held_view(rng, n, tuple(k for k in HELD if k != 'table'))
             i = rng.randint(0, max(0, n)); k = rng.randint(-n - 2, n + 1)
         else:
             kind = rng.choice(('range', 'map', 'zip', 'enum', 'slice'))
@@ -161,6 +163,35 @@ def get_walk_lines(rng, count):
             else: e = f'(slice (range {n}))'
             i = rng.randint(0, max(0, n - 1)); k = i if rng.random() < 0.7 or n == 0 else i - n
         out.append(f'G {i} {k} {e}')
+    return out
+
+def registered(sig):
+    """is a known finding with this oracle signature recorded in KNOWN_FINDINGS.txt (then inputs in its territory are generated
+    too, to check that the implementation still equals the model there; until then they live in its witness file only)"""
+    return any(k['kind'] == 'finding' and k['fields'].get('sig') == sig for k in core.known_findings('C11'))
+
+def disturbing_get_lines(rng, count):
+    """`G i k e` on Range / Map / Zip / enumerate / Slice-of-Range with ANY k: territory of kf-c11-get-walk"""
+    out = []
+    for _ in range(count):
+        n = rng.randint(1, 9)
+        b = base(rng, n, ('array', 'list', 'marray', 'mlist', 'tuple'))
+        e = rng.choice([f'(range {n})', f'(range {rng.randint(-5, 5)} {rng.randint(-5, 12)} {rng.choice([1, 2, -1, -2, 3])})',
+                        f'(map {b} {rng.randint(-3, 3)} {rng.randint(-5, 5)})', f"(zip {b} {base(rng, n, ('array', 'list', 'range'))})",
+                        f'(enum {b})', f'(slice (range {n}))', f'(reverse (range {n}))', f'(map (map {b} 1 1) 2 0)',
+                        f'(filter (map {b} 1 0) 2 0)', f'(zip (map {b} 1 0) (range {n}))'])
+        out.append(f'G {rng.randint(0, n)} {rng.randint(-n - 1, n)} {e}')
+    return out
+
+def alias_zip_lines(rng, count):
+    """`Z k e` for objects whose cursor lives inside them: territory of kf-c11-zip-alias"""
+    out = []
+    for _ in range(count):
+        n = rng.randint(0, 9)
+        b = base(rng, n, ('array', 'list', 'tuple', 'marray'))
+        e = rng.choice([f'(range {n})', f'(range 0 {n} 2)', f'(map {b} 1 0)', f'(zip {b} (range {n}))', f'(enum {b})',
+                        f'(filter (range {n}) 2 0)', f'(slice (range {n}))', f'(reverse (map {b} 2 1))'])
+        out.append(f'Z {rng.randint(2, 4)} {e}')
     return out
 
 def zip_same_lines(rng, count):
@@ -328,11 +359,23 @@ class C11(Spec):
     level_text = ('Theorems (Props/C11.lean, no bound on sizes or nesting): LawfulAs — foreach yields exactly the defined sequence and then '
                   'Terminal, the backward walk its reverse, len its length, get(i) its i-th element — for Array, List, Table (every pattern of '
                   'holes), Tree (every shape, through child/parent pointers), Tuple without a repeated object, Range for ALL (start, stop, step) '
-                  'incl. step 0, negative steps, empty ranges; closed under Filter, Map, Zip (forward/len/get for inputs of any lengths, '
-                  'backward for equal lengths) and enumerate, hence (C11_compositions_lawful, by induction over the expression language that '
-                  'harness and driver interpret) for every composition of views to any nesting depth; Slice: len/get for all parameters, both '
-                  'walks inside the characterised parameter regions SliceRegionFwd/Bwd (C11_slice_partial). The full statements for Slice, '
-                  'Zip backward and Tuple are refuted on concrete witnesses (known findings F11, F12, F13). The model is tied to the code on '
+                  'incl. step 0, negative steps, empty ranges; the property is split into a forward half (LawfulFwdAs) and a backward half '
+                  '(LawfulBwdAs), LawfulAs = both (C11_lawful_iff_both), and every closure theorem is stated PER DIRECTION (Filter, Map, Zip — '
+                  'forward/len/get for inputs of any lengths, backward for equal lengths — enumerate, Slice), hence by induction over the expression '
+                  'language that harness and driver interpret (denote_dir): C11_compositions_lawful for every composition of views to any nesting '
+                  'depth both of whose walks are outside the known findings, C11_compositions_lawful_fwd / _bwd where one walk is (views over a Zip '
+                  'of unequal inputs, over a Slice whose stride fits one way only); len/get are right wherever the object can be constructed '
+                  '(C11_spec_coherent). Slice: len/get for all parameters; both walks inside SliceRegionFwd/Bwd over ANY iterable '
+                  '(C11_slice_partial, exact over an Array: C11_slice_region_exact_small); over an iterable that answers Terminal to a Terminal '
+                  'cursor — Tuple, Range (C11_tuple_absorbs, C11_range_absorbs), Map / Filter / Slice over them — inside the larger regions '
+                  'SliceRegionFwdAbs/BwdAbs = "the positions visited are the positions selected", no divisibility condition '
+                  '(C11_slice_absorbing, exact over a Tuple: C11_slice_region_abs_exact_small, arithmetic form: C11_slice_region_abs_arith_small). '
+                  'get at every index incl. negative ones for Array, List, Tuple, Range, Map, Slice, Zip of equal inputs (C11_get_every_index). '
+                  'A loop body that calls get: C11_walk_with_get under the explicit hypothesis "no get during the walk, or an object whose get '
+                  'leaves the cursor alone" (containers, Slice / Filter over them: C11_get_pure_objects). One object k times in a Zip: right when '
+                  'the cursor is the pointer the caller holds (C11_zip_same_object_cursor_held). The full statements for Slice, Zip backward, '
+                  'Zip get at negative indices, Tuple, get during a walk over Range / Map / Zip, and one Range / Map / Zip object twice in a Zip '
+                  'are refuted on concrete witnesses (known findings). The model is tied to the code on '
                   'every run: all 19^3 Range and 9*19^3 Slice parameter triples over Array/Tuple/Range (and smaller cubes over List, Table, '
                   'Tree, Zip, Map) produce the same items, end markers, len and get in C and in Lean. '
                   'MUTATED containers (Cello/IterMut.lean): List is modelled with its head / tail / next / prev link words and List_Link, '
@@ -345,7 +388,8 @@ class C11(Spec):
                   'of bindings, keys each once), and for every Tree shape whose nitems field counts its nodes (C11_tree_field_lawful).')
     level_note = ('Trusted: Lean kernel; axioms propext/Quot.sound/Classical.choice; the hand-written model Cello/Iter.lean (validated by the '
                   'harness/driver comparison, which is testing); harness/h_iter.c and lean/Driver/Iter.lean. Inside known-finding territory '
-                  '(Slice outside its region, backward Zip of unequal inputs, Tuple with a repeated object) the property is known to FAIL; '
+                  '(Slice outside its region, backward walk / negative get over a Zip of unequal inputs, Tuple with a repeated object, get on a '
+                  'Range / Map / Zip during a walk, one such object twice in a Zip) the property is known to FAIL; '
                   'there the check only verifies that the implementation still behaves as the model predicts. Where the model says the C code '
                   'leaves the protocol (Terminal used as a cursor: `ub`) the implementation is executed in a forked worker and only the '
                   'items before that point are compared. int64 wrap-around of Range values and pointer identity of Filter/Map callables are '
@@ -356,8 +400,9 @@ class C11(Spec):
     rule = ('op files of iterable expressions: (1) every container kind (Array, List, Tuple, white-box Table slot arrays with holes, white-box '
             'Tree shapes, Tree built with set, Range) at every length 0..40 (80 thorough) and some large; (2) every Range (start, stop, step) '
             'in [-9,9]^3 ([-20,20]^3 thorough), all constructor arities and `_`, plus random large ranges; (3) every Slice (start, stop, step) '
-            'in [-9,9]^3 over Array, Tuple and Range of every length 0..8 ([-10,10]^3 over 0..24 and [-20,20]^3 at four lengths, thorough), '
-            'smaller cubes over List, Table, Tree, Zip, Map, a strided Range; all arities/`_`/reverse through the stack macros; Slice_Arg '
+            'in [-9,9]^3 over Tuple and Range of every length 0..8, over Array in [-5,5]^3 at every length 0..8 and [-9,9]^3 at lengths 3 and 8 '
+            '([-10,10]^3 over 0..24 and [-20,20]^3 at four lengths for all three, thorough), '
+            'smaller cubes over List, Table, Tree, Map (lengths 0..5 quick, 0..24 thorough), Zip, a strided Range; all arities/`_`/reverse through the stack macros; Slice_Arg '
             'alone for n <= 12, args in [-15,15]; (4) Zip of 1-4 random inputs of equal and unequal lengths, enumerate of every kind; '
             '(5) random compositions of views to depth 3 (4 thorough), half of them built with the stack macros: one family stays outside '
             'known-finding territory, one is arbitrary. Each op is walked with foreach and backwards, len and get(0..len-1) are read; harness '
@@ -367,7 +412,10 @@ class C11(Spec):
             '0..3 (0..5), random histories of up to 12 (40) mutations on List, Array, Table (keys colliding in the small slot arrays), Tree, '
             'some with every prefix, growth to 60 / 120 elements and back; each as an `L` line (white-box layout: link words by position, store, '
             'slots, outcome of every mutation) and as a `W` line, also under reverse / enumerate / slice / filter / map and as a base of the '
-            'random compositions of (5). non-trivial = the forward walk yields at least '
+            'random compositions of (5). (7) `G i k e`: foreach whose body calls get(obj, k) after item i — every (i, k) on small containers, '
+            'random ones on containers under whole slices / filters (get is pure there: the oracle must stay silent) and on Range / Map / Zip / '
+            'enumerate at the index of the item just handed out; `Z k e`: one object k times in a Zip, for objects whose cursor is held by the '
+            'caller; the disturbing cases (known findings) are in corpus/kf_c11_get_walk.ops and corpus/kf_c11_zip_alias.ops. non-trivial = the forward walk yields at least '
             '2 items or a walk does not end with Terminal (exception / worker crash / cap); distinct = distinct op text.')
     trusted_base = ('lean/Cello/Iter.lean is a hand-written model of src/Iter.c and of the Iter/Len/Get instances of Array, List, Table, Tree, Tuple',
                     'lean/Cello/IterMut.lean is a hand-written model of the mutating functions of src/List.c (link words) and src/Array.c (backing store); '
@@ -379,10 +427,15 @@ class C11(Spec):
                    'mutations happen BEFORE a walk, through the public interface (push, pop, push_at, pop_at, rem, set, concat, resize) with arguments that '
                    'are not the container itself; calloc / realloc do not fail; a freed List node is never handed out again while a stale pointer to it exists '
                    '(addresses are not reused in the model)',
-                   'the container is not modified during a walk; one walk at a time per iterable object (Range, Map and Zip keep the cursor inside the object)',
-                   'the oracle treats as known (not as violations) deviations whose expression lies in known-finding territory: a Slice outside '
-                   'SliceRegionFwd/Bwd (F11), a backward walk that involves a Zip of inputs of unequal length (F12), a Tuple holding one object twice (F13); '
-                   'these inputs ARE generated, to check that the implementation still equals the model there',
+                   'the container is not modified during a walk; one walk at a time per iterable object (Range, Map and Zip keep the cursor inside the '
+                   'object); no get on a Range / Map / Zip / enumerate (or a Slice over one) between iter_init and Terminal (hypothesis of C11_walk_with_get; '
+                   'refuted without: C11_get_disturbs_walk_refuted); the inputs of a Zip are distinct objects unless their cursor is the pointer the caller '
+                   'holds (C11_zip_same_object_cursor_held; refuted without: C11_zip_same_object_refuted)',
+                   'the oracle treats as known (not as violations) deviations of a walk that no theorem covers (same case analysis as dirOf, per direction): '
+                   'a Slice outside its region — SliceRegionFwdAbs/BwdAbs over Tuple / Range / Map / Filter / Slice over them, SliceRegionFwd/Bwd over anything else '
+                   '(F11), a backward walk or a negative get that involves a Zip of inputs of unequal length (F12), a Tuple holding one object twice (F13); '
+                   'these inputs ARE generated, to check that the implementation still equals the model there; walks with a disturbing get and Zips of one '
+                   'in-object iterable are run from the witness files only',
                    'Filter predicates and Map functions are pure and total (test callables: key mod m == r, x -> a*key+b)')
     def compare(self, case, c_out, m_out): return compare_outputs(c_out, m_out)
     def cases(self, rng, tier, boost=1):
@@ -408,11 +461,17 @@ class C11(Spec):
         lines += [f'W (range {rng.randint(-10**6, 10**6)} {rng.randint(-10**6, 10**6)} {rng.choice([-1, 1]) * rng.randint(10**3, 10**6)})' for _ in range(300 * boost)]
         chunked('range', lines)
         # (3) Slice: every (start, stop, step) of the cube over every length, per underlying kind
+        # quick tier: every op whose walk hands Terminal to an Array / List / Table / Tree as a cursor dies under ASan in a forked
+        # worker (~10 ms each), so the cubes over those kinds are smaller there (Array: [-5,5]^3 at every length 0..8 and the full
+        # [-9,9]^3 at lengths 3 and 8; List / Table / Tree / Map: [-3,3]^3 at lengths 0..5); Tuple and Range (no crash) keep [-9,9]^3 × 0..8
         NS = 8 if quick else 24
-        for kind, Rk in (('array', 9), ('tuple', 9), ('range', 9), ('list', 3), ('table', 3), ('tree', 3), ('zip', 3), ('map', 3), ('range3', 4)):
+        for kind, Rk in (('array', 5), ('tuple', 9), ('range', 9), ('list', 3), ('table', 3), ('tree', 3), ('zip', 3), ('map', 3), ('range3', 4)):
             if not quick: Rk = {'array': 10, 'tuple': 10, 'range': 10}.get(kind, 4)
-            for n in range(0, NS + 1):
+            top = 5 if quick and kind in ('list', 'table', 'tree', 'map') else NS
+            for n in range(0, top + 1):
                 chunked(f'slice_{kind}{n}', sweep(kind, n, Rk, with_blank=True), 8000)
+        if quick:
+            for n in (3, 8): chunked(f'slicefull_array{n}', sweep('array', n, 9), 8000)
         if not quick:
             for kind in ('array', 'tuple'):
                 for n in (0, 1, 7, 24):
@@ -486,6 +545,18 @@ class C11(Spec):
             for cut in (big // 2, big, big + big // 2, len(ops)):
                 e = mut_str(kind, [], ops[:cut]); lines += [f'L {e}', f'W {e}', f'W (reverse {e})']
         chunked('mut_random', lines, 500)
+        # (7) `get` called in the loop body (G), one object several times in a Zip (Z) — outside the known findings
+        lines = get_walk_lines(rng, (600 if quick else 12000) * boost) + zip_same_lines(rng, (300 if quick else 6000) * boost)
+        for n in range(0, 7):                      # every (i, k) on small pure objects and on a Range at k = i
+            for i in range(0, n + 1):
+                for k in range(-n - 1, n + 1):
+                    lines.append(f"G {i} {k} {fixed_base(('array', 'list', 'tuple')[n % 3], n)}")
+                lines.append(f'G {i} {i} (range {n})')
+        chunked('get_zip', lines, 500)
+        lines = []
+        if registered('kf-c11-get-walk'): lines += disturbing_get_lines(rng, (400 if quick else 8000) * boost)
+        if registered('kf-c11-zip-alias'): lines += alias_zip_lines(rng, (200 if quick else 4000) * boost)
+        if lines: chunked('get_zip_known', lines, 500)
         return cs
     def nontrivial_items(self, case, c_out, m_out):
         ops = [l for l in case.lines if l and not l.startswith('#')]
@@ -493,7 +564,9 @@ class C11(Spec):
         out = set()
         for op, o in zip(ops, obs):
             m = LINE.match(o)
+            g = GLINE.match(o)
             if o == 'O crash' or (m and (len(_items(m.group(1))) >= 2 or m.group(2) != 'term' or m.group(4) != 'term')): out.add(hash(op))
+            elif g and (len(_items(g.group(1))) >= 2 or g.group(2) != 'term'): out.add(hash(op))
         return out
     def stats(self, case, c_out, m_out, acc):
         for l in core.lines_with('O ', c_out):
@@ -510,6 +583,8 @@ class C11(Spec):
             for h in ('slice', 'reverse', 'zip', 'enum', 'filter', 'map', 'range', 'array', 'list', 'tuple', 'table', 'tree', 'rtree', 'mut list', 'mut array', 'mut table', 'mut tree'):
                 if op[2:].startswith('(' + h + ' ') or op[2:] == '(' + h + ')': acc['top_' + h.replace(' ', '_')] = acc.get('top_' + h.replace(' ', '_'), 0) + 1
             if op.startswith('V '): acc['built_with_stack_macros'] = acc.get('built_with_stack_macros', 0) + 1
+            if op.startswith('G '): acc['walks_with_get_in_body'] = acc.get('walks_with_get_in_body', 0) + 1
+            if op.startswith('Z '): acc['zip_of_one_object'] = acc.get('zip_of_one_object', 0) + 1
         for l in core.lines_with('X ', c_out):
             sg = re.search(r'sig=(\S+)', l)
             if sg: acc['oracle_' + sg.group(1)] = acc.get('oracle_' + sg.group(1), 0) + 1
